@@ -234,3 +234,42 @@ def run(chk, facts):
     rule_r23(chk, facts)
     rule_r24(chk, facts)
     rule_r25(chk, facts)
+    rule_r26(chk, facts)
+
+
+def rule_r26(chk, facts, rule='C03-R26'):
+    chk.rule(rule, 'core modules and pseudo-instruction libraries: a memset()/memcpy() of non-constant length into the code '
+             'buffer lies behind a SetMaxCodeLen() call or a comparison with the buffer\'s current size MaxCodeLen (the '
+             'variable, not the upper limit MaxCodeLen_Max, which the buffer only reaches after growing)', min_instances=4)
+    from .c03_bounds import is_generator
+    P = facts.program('asl')
+    growers = {'SetMaxCodeLen'}
+    for f in P.all_funcs():
+        if f.entry is not None and any(True for _ in f.calls('SetMaxCodeLen')) and len(f.blocks) <= 12:
+            growers.add(f.name)
+    n = 0
+    for f in P.all_funcs():
+        if f.entry is None or is_generator(f.unit.name):
+            continue
+        k = 0
+        for b, i, ln, c in f.calls(('memset', 'memcpy', 'memmove')):
+            if not any(_is_g(m, CODE) for m in walk(c[2][0])):
+                continue
+            L = nocast(c[2][2])
+            if const_val(L) is not None:
+                continue
+            n += 1
+            k += 1
+
+            def fe(l):
+                return edge_has_atom(l, lambda a: a[0] == 'cmp' and any(
+                    isinstance(m, tuple) and len(m) > 1 and m[0] in GLOBKINDS and m[1] == 'MaxCodeLen' for x in (a[2], a[3]) for m in walk(x)))
+
+            def el(ex):
+                return any(m[0] == 'call' and callee_name(m) in growers for m in walk_own(ex))
+            ok, w = f.guarded(b, i, fe, el)
+            chk.ob(rule, '%s:%s:%s#%d' % (f.unit.name, f.name, callee_name(c), k), ok, f.loc(ln),
+                   'behind a size check of the buffer' if ok else
+                   '%s(code buffer, ..., %s) is reached on a path (%s) without SetMaxCodeLen() and without a comparison with '
+                   'MaxCodeLen: the length can exceed the 256 bytes the buffer starts with' % (callee_name(c), show(L)[:30], ' '.join(w[-4:])))
+    return n
